@@ -47,7 +47,7 @@ func init() {
 	core.Register(&core.Prop{
 		ID:    "C14",
 		Level: "exploration",
-		Rule: "(s) EVERY string of length 0..5 (quick) / 0..6 plus a 1/8 hash sample of length 7 (thorough) over the 14-symbol alphabet {# = \" ' _ - space . a B é 読 7 ٣} is placed as record summary, entry summary and continuation line of a parsed file; " +
+		Rule: "(s) EVERY string of length 0..5 (quick) / 0..6 plus a 1/8 hash sample of length 7 (thorough) over the 14-symbol alphabet {# = \" ' _ - space . a B é 読 7 ٣} (quick: length 6 as a 1/3 hash sample) is placed as record summary, entry summary and continuation line of a parsed file; " +
 			"the tags klog reports (name, value, order; as `klog json` spells them) must equal the reference scanner's. (a) generated files with redundant tags (same tag in record and entry, #a=1 #a=2 #a, #A/#a, quoted values with blanks): " +
 			"`klog tags --values --count --decimal` rows must equal, per tag and per tag=value, the sum and number of the entries that carry it (record tags apply to every entry, each entry counted once per key), in name order; " +
 			"and for every key `klog total --tag KEY --decimal` must equal that row (filter and accounting agree). non-trivial & distinct = summaries with >=1 recognised tag (by hash) and files with a tag present in both record and entry summary",
@@ -61,7 +61,7 @@ func init() {
 			if tier == "thorough" {
 				return n + c14Count(6) + c14Count(7)/8 + 150000
 			}
-			return n + 6000
+			return n + c14Count(6)/3 + 6000
 		},
 		Run: runC14,
 	})
@@ -70,7 +70,7 @@ func init() {
 func klogTagStrings(s interface{ Tags() *klog.TagSet }) []string { return s.Tags().ToStrings() }
 
 func runC14(e *core.Env) {
-	maxLen := e.N(5, 7)
+	maxLen := e.N(6, 7)
 	// section (s): blocks of strings
 	var blocks []struct {
 		n      int
@@ -83,7 +83,7 @@ func runC14(e *core.Env) {
 				n      int
 				start  int64
 				sample bool
-			}{n, s, n == 7})
+			}{n, s, n == 7 || (n == 6 && e.Quick())})
 		}
 	}
 	nFiles := int64(e.N(6000, 150000))
@@ -98,7 +98,7 @@ func runC14(e *core.Env) {
 			e.Begin(i, []byte(fmt.Sprintf("strings of length %d from #%d", b.n, b.start)))
 			cnt := int64(0)
 			for k := b.start; k < b.start+c14Block && k < c14Count(b.n); k++ {
-				if b.sample && core.Hash64("c14", fmt.Sprint(e.Seed, k))%8 != 0 {
+				if b.sample && core.Hash64("c14", fmt.Sprint(e.Seed, k))%uint64(e.N(3, 8)) != 0 {
 					continue
 				}
 				s := c14String(b.n, k)
